@@ -7,5 +7,7 @@ for p in $(python3 -c "import json;print(' '.join(c['property_id'] for c in json
   s=$(date +%s)
   VERIF_SEED=$SEED ./check $p --tier $TIER > /tmp/run_all_$p.log 2>&1; rc=$?
   echo "$p rc=$rc $(( $(date +%s) - s ))s $(grep -c '^VIOLATION' /tmp/run_all_$p.log) violations $(grep -c '^KNOWN-FINDING' /tmp/run_all_$p.log) known"
-  [ $rc -ne 0 ] && tail -5 /tmp/run_all_$p.log
+  if [ $rc -ne 0 ]; then tail -5 /tmp/run_all_$p.log; BAD="$BAD $p"; fi
 done
+if [ -n "$BAD" ]; then echo "FAILED:$BAD"; exit 1; fi
+echo "ALL OK"
